@@ -170,7 +170,7 @@ impl Check for C08 {
              oracle: to_bytes/write/write_raw/write_to_slice == independent reference encoding (BitW, RFC diagrams) and == header_len() bytes; IPv4 write == reference with the RFC 1071 checksum; with_checksum/update_checksum == RFC 1071 over the reference; \
              from_slice/read/from_bytes/*Slice::to_header return an equal value and consume all bytes. \
              (B) bytes->value->bytes: per type the encodings of the three backgrounds plus hand-picked layouts; every 1-bit flip and every 2-bit flip within the first {} bytes; accepted strings must re-encode to the consumed bytes outside the reserved-bit masks (refenc.rs mask_*) and decode again to the same value. \
-             (C) stale bytes: every variable part set large-then-small (and small-then-large) via set_raw_icv/set_payload/set_options/set_options_raw/options=/set_hw_addrs/set_protocol_addrs/field assignment, result == directly constructed value in bytes and ==. \
+             (C) stale bytes: every variable part set from every size to every size (AH ICV and raw extension payload: every history size -> size -> size) via set_raw_icv/set_payload/set_options/set_options_raw/options=/set_hw_addrs/set_protocol_addrs/field assignment, result == directly constructed value in bytes and ==. \
              a state = one well-formed value (A), one mutated byte string (B), one (setter, first size, second size, content) tuple (C); distinct by construction (vectors near two backgrounds are visited once); non-trivial = differs from the all-min value (A), accepted by the decoder (B).",
             if th { " plus every single one bit and every single zero bit of the field (VLAN id, fragment offset, IGMPv3 byte 8: every value)" } else { " (12/13-bit fields and the traffic class additionally every single one/zero bit)" },
             if th { 5 } else { 4 },
